@@ -305,6 +305,14 @@ def parse_set_cookie_headers(headers: Sequence[str]) -> list[tuple[str, Morsel[s
             i = match.end(0)
             lower_key = key.lower()
 
+            if lower_key == "expires" and value and value[0] != '"':
+                # A date contains blanks and comes in many shapes: the value
+                # runs up to the next ";" (RFC 6265 5.2), the jar judges it.
+                end = header.find(";", match.start("val"))
+                end = n if end < 0 else end
+                value = header[match.start("val") : end].rstrip()
+                i = end + 1
+
             if key[0] == "$":
                 if not morsel_seen:
                     # We ignore attributes which pertain to the cookie
